@@ -211,7 +211,11 @@ func (r *Report) finish(verifDir string, t0 time.Time, seed int, cmdline string,
 		vf := violationFile{Property: r.Prop, Obligation: o, Tier: r.Tier, Replay: "./run replay " + p}
 		b, _ := json.MarshalIndent(vf, "", " ")
 		os.WriteFile(p, b, 0o644)
-		fmt.Printf("%s: %s: %s [%s] %s\n", o.Pos, o.Status, o.Rule, o.Construct, o.Detail)
+		d := o.Detail
+		if len(d) > 700 {
+			d = d[:700] + " …(see the replay file)"
+		}
+		fmt.Printf("%s: %s: %s [%s] %s\n", o.Pos, o.Status, o.Rule, o.Construct, d)
 		fmt.Printf("VIOLATION property=%s replay=%s\n", r.Prop, p)
 	}
 	// evidence
